@@ -57,8 +57,10 @@ def run_family(rep, tier, replay, prop, mix, probes, quick, thorough, by_kinds=F
     builds = [("1.89", 0, True)]
     if tier == "thorough":
         builds += [("1.95", 0, True), ("nightly", 0, True)]
-    for src in sc.puppet_list(tier):
+    for src in sc.puppet_list(tier, deep=(prop == "C05")):
         for b in builds:
+            if src.stem in sc.PUPPETS_DEEP and b != builds[0]:
+                continue                       # one build of the long execution is enough
             p = sesslib.Puppet(src, *b)
             p.lifecycle = bool(cfg.get("lifecycle"))
             p.signals = bool(cfg.get("signals"))
